@@ -1,10 +1,10 @@
 SPECIFICATION Spec
 CONSTANTS
-  Eps = {e1, e2, e3}
-  MaxNotes = 6
+  Eps = {e1, e2}
+  MaxNotes = 2
   None = None
-  Calls = {}
-  GateBySubscription = FALSE
+  Calls = {c1, c2}
+  GateBySubscription = TRUE
 SYMMETRY Perms
 INVARIANT NoViolation
 INVARIANT QuietOK
